@@ -288,16 +288,49 @@ Lemma x_build_some x tid k assigns removes : x_lock x = 0 ->
   x_step_in x (XoBuild tid (Some k) assigns removes) = xrmv k (xasg k x assigns) removes.
 Proof. intros Hl. unfold x_step_in. rewrite Hl. reflexivity. Qed.
 
+(* an in-contract edit changes the component set: it adds a component the entity does not have (and does not remove it
+   again), or it adds nothing and removes a component the entity has.  So the target archetype of updateComponents is
+   never the current one (without dependencies; with them, removing a dependent of a master that stays maps back). *)
+Lemma build_mask_changes cs pm assigns removes :
+  map fst cs = mitems pm ->
+  (forall c z, In (c, z) assigns -> c < MASK_BITS) ->
+  (forall c z, In (c, z) assigns -> has_comp cs c = false) ->
+  existsb (fun a : nat * Z => existsb (Nat.eqb (fst a)) removes) assigns = false ->
+  (match assigns with [] => true | _ => false end) && negb (existsb (has_comp cs) removes) = false ->
+  minter (munion (mask_of_list (map fst assigns)) pm) (minverse (mask_of_list removes)) <> pm.
+Proof.
+  intros Hk Hlt Habs Hdisj Hchg E.
+  assert (Hhas : forall c, mhas pm c = true -> c < MASK_BITS -> has_comp cs c = true).
+  { intros c Hc Hc128. apply has_comp_in. rewrite Hk. apply mitems_in. split; assumption. }
+  destruct assigns as [|(c, z) t].
+  - simpl in Hchg. apply negb_false_iff in Hchg. apply existsb_exists in Hchg. destruct Hchg as (r & Hr & Hhr).
+    apply has_comp_in in Hhr. rewrite Hk in Hhr. apply mitems_in in Hhr. destruct Hhr as (Hr128 & Hhr).
+    rewrite <- E in Hhr. rewrite mhas_minter, mhas_minverse, mhas_mask_of_list in Hhr.
+    assert (Ex : existsb (Nat.eqb r) removes = true) by (apply existsb_exists; exists r; split; [exact Hr|apply Nat.eqb_refl]).
+    rewrite Ex in Hhr. simpl in Hhr. rewrite !andb_false_r in Hhr. discriminate.
+  - assert (Hin : In (c, z) ((c, z) :: t)) by (left; reflexivity).
+    pose proof (Hlt c z Hin) as Hc128. pose proof (Habs c z Hin) as Hnc.
+    assert (Hm : mhas pm c = true).
+    { rewrite <- E. rewrite mhas_minter, mhas_minverse, mhas_union, !mhas_mask_of_list.
+      simpl in Hdisj. apply orb_false_iff in Hdisj. destruct Hdisj as (Hd & _). rewrite Hd.
+      simpl. rewrite Nat.eqb_refl. apply Nat.ltb_lt in Hc128. rewrite Hc128. reflexivity. }
+    rewrite (Hhas c Hm Hc128) in Hnc. discriminate.
+Qed.
+
 Lemma MInvE_build_some cis s hs al x tid k assigns removes s' out :
   MInvE cis s hs al x -> assigns_ok cis assigns -> NoDup (map fst assigns) ->
-  alive_x x k = true -> x_viol (x_step_in x (XoBuild tid (Some k) assigns removes)) = x_viol x ->
+  alive_x x k = true -> out_of_contract x (XoBuild tid (Some k) assigns removes) = false ->
+  x_viol (x_step_in x (XoBuild tid (Some k) assigns removes)) = x_viol x ->
   step s (OBuild tid (Some (hnd hs k)) assigns removes) = Ok (s', out) ->
   out = RNone /\ exists al', MInvE cis s' hs al' (x_step_in x (XoBuild tid (Some k) assigns removes)).
 Proof.
-  intros HE Hok Hnd Hax Hviol H. pose proof HE as [HI HM Hw Hmi Hml Hmk].
+  intros HE Hok Hnd Hax Hooc Hviol H. pose proof HE as [HI HM Hw Hmi Hml Hmk].
   pose proof HI as [HG Hawf Hl Hdp Hc Hxl Hxd Hxc Hcnt Hsl Hal Hv].
   destruct (alive_in _ _ (proj2 (Hal k) Hax)) as (key & Hin).
   destruct (find_ent x k) as [e|] eqn:Hfe; [|apply alive_x_find in Hax; congruence].
+  (* the contract: no component both assigned and removed; the edit changes the component set *)
+  simpl in Hooc. rewrite Hxl, Hfe in Hooc. apply orb_false_iff in Hooc. destruct Hooc as (Hooc & Hchg).
+  apply orb_false_iff in Hooc. destruct Hooc as (Hdisj & _).
   destruct (live_vmatch _ _ _ _ _ _ _ _ HI Hin Hfe) as (Hk & pai & pidx & pa & Hloc & Hpa & Hkey & Hent & Hvm).
   rewrite (x_build_some _ _ _ _ _ Hxl) in *.
   (* the specification *)
@@ -323,6 +356,12 @@ Proof.
   assert (Hloc_g : nth_error (locs s_g) (N.to_nat (fst (hnd hs k))) = Some {| l_arch := Some pai; l_idx := pidx |})
     by (rewrite (fr1_locs _ _ Fg); exact Hloc).
   assert (Hpa_g : nth_error (archs s_g) pai = Some pa) by (apply Hkeep; exact Hpa).
+  (* the target archetype is not the current one: the move is not skipped *)
+  destruct (Nat.eqb_spec ai pai) as [Esame|_].
+  { exfalso. subst ai. assert (Eat : a_t = pa) by congruence. subst a_t.
+    refine (build_mask_changes (e_comps e) (am_mask pa) assigns removes (proj1 Hvm) _ Habs Hdisj Hchg _).
+    - intros c z Hcz. apply (Hok c z Hcz).
+    - rewrite <- Eskip, <- Em. symmetry. exact Hmt. }
   set (e_mid := {| e_k := k; e_comps := map (fun c : nat => (c, @None Z)) (mitems m); e_shared := [] |}).
   assert (Hnew : forall a2, am_mask a2 = am_mask a_t ->
      (forall ci c0, nth_error (mitems (am_mask a_t)) ci = Some c0 ->
